@@ -60,6 +60,27 @@
                       out with the result; Tidy m = no element sits beyond len.)
                       The environment E is ARBITRARY: ==, Clone, Drop, closures
                       may lie, change their mind and panic.
+     cpostN E w ins outs w' / cpostP E w ins w'   (Proofs/Owned.v)
+                      the normal / panic postcondition of `conserves` as a
+                      predicate, for calls that need an extra precondition:
+                      cpostN E w ins outs w' := WF (self w') /\ cap (self w') = cap (self w) /\
+                         exists lost, acct E w w' ins outs lost /\
+                                      (Tidy (self w) -> lost = [] /\ Tidy (self w'))
+                      cpostP E w ins w' := WF (self w') /\ cap (self w') = cap (self w) /\
+                         exists lost, acct E w w' ins [] lost
+     entry_ok e m     (Proofs/Safety3.v) Occupied i => i < len m | Vacant _ => True
+     ids_entry E e    (Proofs/Owned2.v) the key a Vacant entry carries; [] for Occupied
+     made_entry E e f w   what or_insert_with's closure f produces from callback
+                      state cb w when e is Vacant (idV of the value if it
+                      returns, [] if it panics); [] for Occupied (f not called)
+     into_keys_next E / into_values_next E   (Proofs/Owned2.v, not in the model)
+                      IntoIter::next followed by the drop of the half of the
+                      pair that IntoKeys / IntoValues does not hand out
+     clone_made E src n i s   the pairs the Clone callbacks return, in order,
+                      when cloning slots i, i+1, ... of src from callback
+                      state s, up to the first Clone panic
+     cloned_from E a k'   k' is what cloneK returned, in some callback state,
+                      for a key stored in a
 
    READING GUIDE (clause -> theorem)
      "No operation reads, compares, returns or destroys a slot that does not
@@ -98,15 +119,58 @@
                              C02_drain_session_logs
           a fully consumed IntoIter hands out every entry, container empty
                              C02_into_run_all_rev
+     Entry API (Proofs/Owned2.v), any environment:
+          Map::entry          C02_conserves_entry_of (a Vacant entry holds the key)
+          OccupiedEntry::insert / remove_entry / remove
+                             C02_conserves_occ_insert, C02_conserves_occ_remove_entry,
+                             C02_conserves_occ_remove
+          VacantEntry::insert C02_conserves_vac_insert
+          or_insert / or_insert_with / and_modify (the unused default of an
+          Occupied entry is destroyed, not leaked)
+                             C02_conserves_or_insert, C02_conserves_or_insert_with,
+                             C02_conserves_and_modify
+          the chain entry(k).or_insert(v)
+                             C02_conserves_entry_or_insert
+     "its consuming iterators (into_iter, into_keys, into_values)":
+          IntoKeys::next / IntoValues::next
+                             C02_conserves_into_keys_next, C02_conserves_into_values_next
+     Set<T,N>, one lemma per method:
+          insert / replace / remove / take / clear / retain
+                             C02_conserves_s_insert, C02_conserves_s_replace,
+                             C02_conserves_s_remove, C02_conserves_s_take,
+                             C02_conserves_s_clear, C02_conserves_s_retain
+          extend / from_iter (hypothesis: () carries no ledger identity)
+                             C02_conserves_s_extend, C02_s_from_iter_acct
+          no identity in two places, return and panic
+                             C02_s_insert_NoDup, C02_s_take_NoDup
+          &Set - &Set        C02_set_sub_acct (the result holds clones of
+                             elements of the left operand, each accounted for)
+     "cloned into a Map": Clone
+                             C02_clone_acct (the clone owns exactly what the Clone
+                             callbacks returned; on a Clone panic every object
+                             made so far is destroyed by the Drop of the partial
+                             clone, or leaked in it)
+                             C02_clone_NoDup (none of them twice)
 
    PARTLY / NOT COVERED BY A THEOREM (left to the correspondence check and the
    harness's leak oracle)
-     - the conservation lemmas are stated for Map; Set<T,N> is the wrapper
-       Map<T,(),N> (Model/SetOps.v) and is covered by the UB-freedom theorems
-       (C02_step_safe ... include all Set operations) but there is no separate
-       `conserves` lemma per Set method;
-     - into_keys / into_values: same IntoIter::next underneath (covered by
-       C02_step_safe for safety via OIntoIter's `kind`), no separate accounting lemma;
+     - Set<T,N> (the wrapper Map<T,(),N>, Model/SetOps.v): NOW COVERED by the
+       C02_conserves_s_* / C02_s_* theorems above.  Still without an accounting
+       lemma: the read-only Set methods contains / get (Owned2.conserves_s_contains,
+       conserves_s_get exist but are not restated here), the set algebra iterators
+       (they only borrow) and BitOr/BitAnd/BitXor (only Sub: C02_set_sub_acct);
+       their UB-freedom is in C02_step_safe;
+     - into_keys / into_values: NOW COVERED per step by C02_conserves_into_keys_next
+       / C02_conserves_into_values_next; into_keys_next / into_values_next are
+       defined in Proofs/Owned2.v on top of the model's IntoIter::next (the model
+       has one IntoIter with a `kind` in Exec.v), so that they match the crate's
+       IntoKeys / IntoValues is part of the correspondence check;
+     - Entry API: or_insert_with_key has lemmas in Owned2 (conserves_or_insert_with_key and its _vacant, _occupied variants)
+       that are not restated here; Entry::or_default, Entry::key, OccupiedEntry::get
+       / get_mut / into_mut / key move nothing (C11);
+     - Clone: C02_clone_acct is stated for the model's clone_from_src into an EMPTY
+       TIDY container of the source's capacity (what Map::clone starts from);
+       Clone::clone_from into a non-empty container is not modelled;
      - mem::forget of a Drain / IntoIter: safety is in C02_step_safe (fate
        parameter); that forgetting leaks (and never double-drops) is
        IterSpec.drain_forgotten, listed under C10;
@@ -547,8 +611,10 @@ Print Assumptions C02_s_take_NoDup.
 
 (* Clone into an empty tidy container of the source's capacity: the clone owns
    exactly the objects the Clone callbacks returned (clone_made), nothing is
-   destroyed on normal return; on a panic of a Clone callback the objects made so
-   far are either still in the partial clone or destroyed (d), none twice *)
+   destroyed on normal return; on a panic of a Clone callback the partial clone is
+   dropped by the unwinding, and every object made so far has been destroyed by
+   that Drop (d) or is left (leaked) in its dead storage (owned E (self w')),
+   none twice *)
 Theorem C02_clone_acct :
   forall (K V Q T : Type) (E : env K V Q T) (src : map K V) (w : world K V T),
   WF src ->
@@ -669,12 +735,13 @@ Proof. cbn [entry_ok len m3]. repeat split; try lia. Qed.
    empty container of the same capacity, and what the honest Clone callbacks make *)
 Example C02_example_clone :
   let w0 := w_of (new_map (cap m3)) in
-  WF (self w0) /\ len (self w0) = 0 /\ cap (self w0) = cap m3 /\
+  WF (self w0) /\ len (self w0) = 0 /\ cap (self w0) = cap m3 /\ Tidy (self w0) /\
   length (clone_made (env_map (sc_drop 0)) m3 (len m3) 0 (cb w0)) = 3 /\
   NoDup (flat_map (ids_pair (env_map (sc_drop 0)))
                   (clone_made (env_map (sc_drop 0)) m3 (len m3) 0 (cb w0)) ++ dropped (log w0)).
 Proof.
   cbv zeta. split; [apply WF_new|]. split; [reflexivity|]. split; [reflexivity|].
+  split; [intros i _ Hn; destruct i as [|[|[|i]]]; try reflexivity; exfalso; apply Hn; destruct i; reflexivity|].
   split; [vm_compute; reflexivity|]. vm_compute.
   repeat constructor; cbn [In]; intros H;
     repeat (destruct H as [H | H]; try discriminate H); exact H.
